@@ -120,8 +120,29 @@ pub fn run(ctx: &Ctx) -> i32 {
     let k_perm = ctx.tier.pick(3, 8);
     let mut bases = vec![];
     for (i, t) in dice::draw_trees(&mut runner, 500, n_b * 2).into_iter().enumerate() {
-        let g = ggen::build(&Profile { shuffle_decls: false, ..profs[[0, 2, 3][i % 3]].clone() }, &t.current());
+        let mut g = ggen::build(&Profile { shuffle_decls: false, ..profs[[0, 2, 3][i % 3]].clone() }, &t.current());
         let istream = dice::draw_trees(&mut runner, 4000, 1).pop().unwrap().current();
+        // every fourth base gets a declaration-level error whose detection involves two
+        // declarations (start rule named as part, a used token declared skipped, a skipped token
+        // declared right): it must be rejected in every order of the declarations
+        if i % 4 == 3 {
+            let mut d = Dice::new(&istream);
+            match d.below(3) {
+                0 => g.parts.push(g.start),
+                1 => {
+                    if let Some(t) = (0..g.tokens.len()).find(|t| !g.skip.contains(t)) {
+                        g.skip.push(t);
+                    }
+                }
+                _ => {
+                    if let Some(t) = g.skip.first().copied() {
+                        g.right.push(t);
+                    } else {
+                        g.parts.push(g.start);
+                    }
+                }
+            }
+        }
         bases.push((g, istream));
     }
     let res_b: Vec<(Evidence, Vec<Violation>)> = pool.install(|| {
@@ -136,7 +157,23 @@ pub fn run(ctx: &Ctx) -> i32 {
                 for (ci, (g, istream)) in chunk.iter().enumerate() {
                     let Ok((sets0, warn0, acc0)) = sets_by_id(g) else { continue };
                     if !acc0 {
-                        ev.exclude("rejected by lelwel");
+                        // a rejected grammar: no order of its declarations may be accepted (that
+                        // order would be an accepted grammar whose reordering changes the diagnostics)
+                        let mut d = Dice::new(istream);
+                        let mut flipped = false;
+                        for _ in 0..k_perm + 2 {
+                            let v = ggen::permute_decls(g, &mut d);
+                            ev.eval();
+                            ev.label("rejected_base_permutations");
+                            if let Ok((_, _, true)) = sets_by_id(&v) {
+                                vs.push(Violation { sig: "verdict-changes".into(), what: "a rejected grammar is accepted after reordering its declarations (i.e. an accepted grammar is rejected after reordering)".into(), replay: json!({"grammar": print(&v).text, "permuted": print(g).text}) });
+                                flipped = true;
+                                break;
+                            }
+                        }
+                        if !flipped {
+                            ev.exclude("rejected by lelwel in every order tried");
+                        }
                         continue;
                     }
                     let start = items.len();
